@@ -18,8 +18,9 @@ THEOREMS = [
     "MoreExec.Apply.C16_failure_from_input",
     "MoreExec.Apply.callClo_build",
     "MoreExec.Apply.wrapped_all_ok",
+    "MoreExec.Apply.C16_source_facts",
 ]
-KERNELS = []
+KERNELS = ["K18"]
 BUDGET = {"quick": 120, "thorough": 900}
 ASSUMPTIONS = [
     "map / flat_map steps behave as in C13's model (success applies the function, failure propagates)",
